@@ -46,6 +46,8 @@ def catalogue(features=()):
     C.append(struct([F('map', mode='kv', cont='HashMap')]))
     C.append(struct([F('map', mode='ko', cont='HashMap')]))
     C.append(struct([F('map', mode='kv', cont=omap)]))
+    # a value type for which the in-memory pair is larger than its encoding (padding): size-based shortcuts in the codecs
+    C.append(struct([F('plain'), F('map', mode='kv', cont='HashMap', vty='u64')]))
     C.append(struct([F('recmap', mode='kv', inner=LEAF(), cont='HashMap')]))
     C.append(struct([F('recmap', mode='ko', inner=LEAF(), cont='HashMap')]))
     C.append(struct([F('recmap', mode='kv', inner=LEAF2(), cont=omap)]))
@@ -172,7 +174,7 @@ def rust_field_type(f, elem='u32'):
     if k == 'recurse': return f['inner']['name']
     if k == 'ropt': return f'Option<{f["inner"]["name"]}>'
     if k in ('ordered', 'unord'): return f'{f["cont"]}<u32>'
-    if k == 'map': return f'{f["cont"]}<u32, u32>'
+    if k == 'map': return f'{f["cont"]}<u32, {f.get("vty", "u32")}>'      # vty u64: (K, V) larger in memory than on the wire
     if k == 'recmap': return f'{f["cont"]}<u32, {f["inner"]["name"]}>'
     raise ValueError(k)
 
@@ -487,6 +489,36 @@ def flip_zeros(sh, v):
         elif k == 'recurse': out.append(flip_zeros(f['inner'], x))
         elif k == 'ropt' and x != 'none': out.append(['some', flip_zeros(f['inner'], x[1])])
         else: out.append(x)
+    return out
+
+
+def has_float(sh):
+    if sh['t'] == 'enum':
+        return any(v[0] == 'ftuple' for v in sh['variants'])
+    for f in sh['fields']:
+        if f['k'] == 'plain' and f.get('rty') == 'f64': return True
+        if f['k'] == 'plain' and f.get('rty') == 'enum' and has_float(f['en']): return True
+        if (f['k'] in ('recurse', 'ropt') or (f['k'] == 'plain' and f.get('rty') == 'struct')) and has_float(f['inner']): return True
+    return False
+
+
+def gen_zeroish(sh, rnd):
+    """a value whose float payloads are all zeros (of either sign), an enum in a float-carrying variant when it has one"""
+    if sh['t'] == 'enum':
+        fl = [j for j, v in enumerate(sh['variants']) if v[0] == 'ftuple']
+        if not fl:
+            return gen_value(sh, rnd)
+        j = rnd.choice(fl)
+        return ['e', j] + [rnd.choice([0, NEGZ]) for _ in range(sh['variants'][j][1])]
+    out = ['s']
+    for f in sh['fields']:
+        k = f['k']; r = f.get('rty', 'u32')
+        if k == 'plain' and r == 'f64': out.append(rnd.choice([0, NEGZ]))
+        elif k == 'plain' and r == 'enum': out.append(gen_zeroish(f['en'], rnd))
+        elif k == 'plain' and r == 'struct': out.append(gen_zeroish(f['inner'], rnd))
+        elif k == 'recurse': out.append(gen_zeroish(f['inner'], rnd))
+        elif k == 'ropt': out.append(['some', gen_zeroish(f['inner'], rnd)])
+        else: out.append(gen_field(f, rnd))
     return out
 
 
